@@ -174,6 +174,17 @@ def main(argv=None):
             report.coverage["traces_validated_against_impl"] = report.coverage.get("traces_validated_against_impl", 0) + sc.get("sequences", 0)
             if sc.get("f1_found_by_model") and sc.get("f2_found_by_model"):
                 report.notes.append("SchedCache.tla: the pre-fix variants of F1 (MIN over chains) and F2 (edge loss does not flag the producer) fail in the model")
+    if pid in ("C06", "C07"):
+        # Layer G: what the end-of-build clean-up deletes and removes (spec/Cleanup.tla), model checked over
+        # its whole family of configurations and replayed into the real Workflow on a real directory
+        with Scratch():
+            from checks import cleanup
+            cl = cleanup.run(report, args.tier, args.seed, pid)
+        report.coverage["cleanup"] = cl
+        report.coverage["states"] = report.coverage.get("states", 0) + cl.get("states", 0)
+        report.coverage["traces_validated_against_impl"] = report.coverage.get("traces_validated_against_impl", 0) + cl.get("configurations", 0)
+        if cl.get("f9_found_by_model"):
+            report.notes.append("Cleanup.tla: the strict form of SurvivorsAreHeld fails in the model (a cycle of creator and dependency edges among detached nodes: finding F9)")
     if pid in ("C03", "C10"):
         # Layer G: amended inputs, deferral, wake-up and the defer cap (spec/Defer.tla) model checked
         # and replayed into the real Workflow
